@@ -29,14 +29,14 @@ STUBS = ["np proxy", "SymArray", "np.save/np.load array store (symbolic world; t
 
 def bounds_text(tier):
     if tier == "quick":
-        return ("construction+ranking: n=3 limits 1..4, n=4 limits 1,2,3,9,10,11, n=5 limits 1,2; iterations: n=3 limits 1..3 x plain/plus x 13 concrete prefixes "
+        return ("construction+ranking: n=3 limits 1..4, n=4 limits 1,2,3,9,10,11, n=5 limits 1,2,4,5 (68 406 coalition sets: more than 16 bits of ranks); iterations: n=3 limits 1..3 x plain/plus x 13 concrete prefixes "
                 "of length <=2 + one symbolic iteration; n=4 limit 1 first iteration")
     return "construction+ranking also n=5 limit 3; iterations: n=3 x 40 prefixes of length <=3; n=4 limits 1,2 x 6 prefixes"
 
 
 def tasks(tier, seed):
     out = []
-    grid = [(3, 1), (3, 2), (3, 3), (3, 4), (4, 1), (4, 2), (4, 3), (4, 9), (4, 10), (4, 11), (5, 1), (5, 2)] + ([(5, 3)] if tier == "thorough" else [])
+    grid = [(3, 1), (3, 2), (3, 3), (3, 4), (4, 1), (4, 2), (4, 3), (4, 9), (4, 10), (4, 11), (5, 1), (5, 2), (5, 4), (5, 5)] + ([(5, 3), (5, 6)] if tier == "thorough" else [])
     for n, lim in grid:
         out.append({"key": f"construct/n{n}/limit{lim}", "kind": "construct", "n": n, "limit": lim})
     rnd = random.Random(f"c14/{seed}")
